@@ -119,6 +119,23 @@ NAMESPACES: typing.Dict[str, typing.Dict[str, typing.Any]] = {
             "x/y/B.1.0.dsdl": "x.y.Reading.1.0 a\nx.y.Reading.2.0 b\n" + _S,
         },
     },
+    # long names: include guards / paths / identifiers of 64, 71 and 100+ characters (size boundaries of C translators)
+    "long": {
+        "root": "x",
+        "files": {
+            "x/Heartbeat.1.0.dsdl": "uint8 v\n" + _S,
+            # X_PROPULSION_SUBSYSTEM_ELECTRIC_DRIVE_TRAIN_STATUS_1_0_INCLUDED_ = 64 characters
+            "x/propulsion_subsystem/electric_drive_train/Status.1.0.dsdl": "uint8 v\n" + _S,
+            "x/propulsion_subsystem/electric_drive_train/StatusReport.1.0.dsdl": "uint16 v\n" + _S,  # 71
+            "x/propulsion_subsystem/electric_drive_train/MotorControllerTemperatureReportWithAnExtraordinarilyLongName.1.0.dsdl": (
+                "x.propulsion_subsystem.electric_drive_train.Status.1.0 a_field_with_a_rather_long_name_that_goes_on_and_on\n" + _S
+            ),
+            "x/propulsion_subsystem/Summary.1.0.dsdl": (
+                "x.propulsion_subsystem.electric_drive_train.StatusReport.1.0 a\n"
+                "x.propulsion_subsystem.electric_drive_train.MotorControllerTemperatureReportWithAnExtraordinarilyLongName.1.0[<=2] b\n" + _S
+            ),
+        },
+    },
     # nested namespaces whose names differ only in letter case (PyDSDL accepts them); HTML only
     "case": {
         "root": "x",
@@ -162,6 +179,8 @@ CORE_CFGS: typing.List[Cfg] = [
 # additionally run through the CLI with --generate-namespace-types (c/cpp: a copy of the built-in templates plus a
 # Namespace.j2 that walks T.data_types / T.get_nested_types())
 GNT_CORE: typing.List[Cfg] = [("multi", "c", True), ("multi", "html", True)]
+# in the quick core of the hash-seed axis only (otherwise sliced like any other configuration)
+HASHSEED_CORE: typing.List[Cfg] = [("long", "c", True), ("long", "cpp17", True), ("long", "py", True), ("long", "html", True)]
 _USER_NAMESPACE_J2 = (
     "// namespace {{ T.full_name }}\n{% for t in T.data_types %}// data type {{ t }}\n{% endfor %}"
     "{% for t, p in T.get_nested_types() %}// nested type {{ t.full_name }} {{ t.version.major }}.{{ t.version.minor }}\n{% endfor %}"
@@ -758,7 +777,7 @@ def run(ctx: Ctx) -> int:
         expect = permset.arities(trace)
         specs = []
         for dev in children:
-            if cfg in core or ctx.in_slice(_dev_id(cfg, dev)):
+            if cfg in core or ctx.in_slice(_dev_id(cfg, dev), 24):
                 specs.append({"dev": [list(d) for d in dev], "expect": expect[: dev[-1][0] + 1]})
         for part in _shard(specs, 20):
             jobs.append({"cfg": cfg, "specs": part, "ref_trace": ref_traces[cfg], "scratch": scratch})
@@ -812,7 +831,7 @@ def run(ctx: Ctx) -> int:
     jobs = [
         {"cfg": cfg, "seeds": seeds, "scratch": scratch}
         for cfg in cfgs
-        if cfg in core or ctx.in_slice(cfg_id(cfg) + "|hashseed", 32)
+        if cfg in core or cfg in HASHSEED_CORE or ctx.in_slice(cfg_id(cfg) + "|hashseed", 32)
     ]
     gnt_space = [c for c in cfgs if c[2]]
     jobs += [
